@@ -94,6 +94,9 @@ def cases(ctx):
                 # signal): the complete result must still be written into out
                 yield {"fn": name, "variant": v, "shape": shape, "seed": rng.randrange(1 << 30),
                        "content": rng.choice(["random", "random", "zeros", "const", "interior"])}
+        # hitmiss documents its out as "Boolean ndarray of same size as input", whatever the (integer) type of the input
+        shape = [rng.choice([3, 4, 5, 6]) for _ in range(2)]
+        yield {"fn": "hitmiss", "variant": "boolout", "shape": shape, "seed": rng.randrange(1 << 30), "content": "random"}
 
 
 def run_case(ctx, case):
@@ -131,6 +134,15 @@ def run_case(ctx, case):
     oshape = ref.shape
     if v in ("valid", "output_kw"):
         buf = np.full(oshape, sentinel, dtype=odt)
+    elif v == "boolout":
+        buf = np.full(oshape, True, dtype=bool)
+        r = sp["fn"](*[x.copy() if isinstance(x, np.ndarray) else x for x in args], out=buf, **kw)
+        if r is not buf:
+            return Result(False, True, {"why": "hitmiss did not return the supplied (Boolean, as documented) out buffer",
+                                        "returned_dtype": str(np.asarray(r).dtype), "is_view_of_out": bool(getattr(r, "base", None) is buf)})
+        if not np.array_equal(buf, ref.astype(bool)):
+            return Result(False, True, {"why": "hitmiss: Boolean out buffer does not hold the result of the call without out"})
+        return Result(True, len(np.unique(ref)) > 1, None, "hitmiss/boolout")
     elif v == "dtype":
         wrong = np.dtype(np.float32) if odt != np.float32 else np.dtype(np.int16)
         if odt.kind == "f":
